@@ -54,9 +54,11 @@ def _work(seed):
         a = rec.run_spec(spec)
         b = rec.run_spec(twin_spec(spec))
     da, db = digest(a), digest(b)
+    cut_off = any(r.get("error") and r["error"].get("type") == "RunTimeout" for r in (a, b))
     res = {"seed": seed, "spec": spec, "engines": engines, "n_events": len(da), "demes": sum(1 for x in da if x[0] == "new"), "diff": None,
            "cut": any(e["e"] == "stage" and e["name"] == "tree:LevelLimit" for e in a["events"])}
-    if da != db:
+    res["cut_off"] = cut_off
+    if da != db and not cut_off:     # a run that was cut off by the per-run limit is not compared with its twin
         j = next((i for i, (x, y) in enumerate(zip(da, db)) if x != y), min(len(da), len(db)))
         xa = da[j] if j < len(da) else None
         xb = db[j] if j < len(db) else None
@@ -77,6 +79,7 @@ def run_twins(ctx, n):
     dist = {}
     for r in results:
         dist["/".join(r["engines"])] = dist.get("/".join(r["engines"]), 0) + 1
+    dist["pairs-not-compared:run-cut-off-by-the-time-limit"] = sum(1 for r in results if r.get("cut_off"))
     return {"violations": viol, "evaluations": len(results), "distinct_nontrivial": len({(tuple(r["engines"]), min(r["demes"], 5)) for r in results if r["demes"] > 1}),
             "distribution": dist, "samples": [{"engines": r["engines"], "facts_compared": r["n_events"], "demes": r["demes"]} for r in results[:3]]}
 
